@@ -226,6 +226,7 @@ func c08(tier string) []*explore.Scenario {
 			out = append(out, c08DoneTwice(stream, order))
 		}
 	}
+	out = append(out, c08Concurrent(2, false, time.Hour, 2), c08Concurrent(2, true, 30*time.Second, 1), c08Concurrent(3, true, time.Hour, 1), c08Concurrent(8, true, time.Hour, 0))
 	// several calls under one context (same absolute deadline), time passing in between
 	for _, stream := range []bool{false, true} {
 		out = append(out, c08SharedContext(stream, 5*time.Second, 400*time.Millisecond, 4), c08SharedContext(stream, time.Hour, 7*time.Minute, 5), c08SharedContext(stream, 300*time.Hour, 31*time.Hour, 4))
@@ -646,6 +647,50 @@ func c08DoneTwice(stream bool, order string) *explore.Scenario {
 				vsched.Fail(fam+"|deadline-lost", "a call issued under a context that was %s: the handler ran without any deadline", order)
 			} else if dl.After(time.Now().Add(time.Second)) {
 				vsched.Fail(fam+"|deadline-wrong", "a call issued under a context that was %s (deadline 50 ms, long gone): the handler's deadline is %v away", order, time.Until(dl))
+			}
+		},
+	}
+}
+
+// c08Concurrent: k calls with the same timeout (so the same header value) are started at once
+// on one connection - unary calls interpreted by different workers, and a stream interpreted by
+// the read loop: every handler has its deadline within the window of the statement.
+func c08Concurrent(k int, withStream bool, timeout time.Duration, bound int) *explore.Scenario {
+	fam := "C08/concurrent"
+	return &explore.Scenario{
+		Name: fmt.Sprintf("C08/concurrent/k=%d/stream=%v/timeout=%v", k, withStream, timeout), Family: fam, Prop: "C08", Bound: bound, Horizon: time.Nanosecond,
+		Run: func() {
+			w := env.NewWorld()
+			d := env.NewDirect(w, env.DirectOpts{Pipe: env.PipeOpts{Cap: 64}})
+			vsched.Settle()
+			vsched.Explore(true)
+			ctx, cancel := context.WithTimeout(context.Background(), timeout)
+			defer cancel()
+			callerDl, _ := ctx.Deadline()
+			var rs []*env.Rec
+			for i := 0; i < k; i++ {
+				r := w.Rec(fmt.Sprintf("u%d", i), "Unary")
+				rs = append(rs, r)
+				vsched.GoNamed("caller-"+r.Tag, func() { w.CallUnary(d.CC, ctx, r, "x") })
+			}
+			if withStream {
+				r := w.Rec("s", "Bidi")
+				rs = append(rs, r)
+				w.Handlers["s"] = func(r *env.Rec, ss grpc.ServerStream) error { return nil }
+				vsched.GoNamed("caller-s", func() { w.Open(d.CC, ctx, r) })
+			}
+			vsched.Quiesce()
+			for _, r := range rs {
+				if r.HStarts != 1 {
+					vsched.Fail(fam+"|handler-not-run", "call %s: handler ran %d times (err %v)", r.Tag, r.HStarts, r.CErr)
+					continue
+				}
+				dl, has := r.HCtx.Deadline()
+				if !has {
+					vsched.Fail(fam+"|deadline-lost", "%d calls with the same timeout (%v) started at once: the handler of %s has no deadline", len(rs), timeout, r.Tag)
+				} else if dl.Before(callerDl.Add(-time.Millisecond)) || dl.After(callerDl) {
+					vsched.Fail(fam+"|deadline-wrong", "%d calls with the same timeout started at once: the handler of %s has its deadline %v off the caller's", len(rs), r.Tag, dl.Sub(callerDl))
+				}
 			}
 		},
 	}
